@@ -616,6 +616,21 @@ class Lower:
                 wrap = name in self.generated
                 return self.args(args, lambda as_: self.bindc(self.app(head, as_, wrap), k, ind), ind)
             return self.ex(recv, lambda r: self.args(args, lambda as_: self.bindc(self.app(f"{r}.rs_{name}", as_, False), k, ind), ind), ind)
+        if t == "index":
+            recv, idx = e[1], e[2]
+            if idx[0] == "range":
+                a, b = idx[1], idx[2]
+                if a is not None and b is not None:
+                    name, args = "index_range", [a, b]
+                elif a is not None:
+                    name, args = "index_from", [a]
+                elif b is not None:
+                    name, args = "index_to", [b]
+                else:
+                    raise Bad("full range index")
+            else:
+                name, args = "index", [idx]
+            return self.ex(("mcall", recv, name, args), k, ind)
         if t == "block":
             return self.block(e, k, ind)
         if t == "if":
@@ -736,6 +751,10 @@ TARGETS = [
     ("repr.rs", "impl Repr", "reserve", "Repr.reserve", False),
     ("repr.rs", "impl Repr", "shrink_to", "Repr.shrink_to", False),
     ("repr.rs", "impl Repr", "ensure_modifiable", "Repr.ensure_modifiable", False),
+    ("repr.rs", "impl Repr", "push_str", "Repr.push_str", False),
+    ("repr.rs", "impl Repr", "insert_str", "Repr.insert_str", False),
+    ("repr.rs", "impl Repr", "remove", "Repr.remove", False),
+    ("repr.rs", "impl Repr", "pop", "Repr.pop", False),
     ("repr.rs", "impl Repr", "is_heap_buffer", "Repr.is_heap_buffer_body", False),
     ("repr.rs", "impl Repr", "is_static_buffer", "Repr.is_static_buffer_body", False),
     ("lib.rs", "impl LeanString", "clear", "LeanString.clear", True),
@@ -748,6 +767,8 @@ SIGS = {
     "Repr.truncate_unchecked": ([("new_len", "Nat")], "Rs Unit"), "Repr.truncate": ([("new_len", "Nat")], "Rs Unit"),
     "Repr.make_shallow_clone": ([], "Handle"), "Repr.reserve": ([("additional", "Nat")], "Rs Unit"),
     "Repr.shrink_to": ([("min_capacity", "Nat")], "Rs Unit"), "Repr.ensure_modifiable": ([], "Rs Unit"),
+    "Repr.push_str": ([("string", "Str")], "Rs Unit"), "Repr.insert_str": ([("idx", "Nat"), ("string", "Str")], "Rs Unit"),
+    "Repr.remove": ([("idx", "Nat")], "Rs Chr"), "Repr.pop": ([], "Rs (Option Chr)"),
     "Repr.is_heap_buffer_body": ([], "Bool"), "Repr.is_static_buffer_body": ([], "Bool"),
     "LeanString.clear": ([], "Unit"),
 }
